@@ -272,7 +272,7 @@ _TOKEN_MATCHERS.extend([
     (re.compile(br'::[a-zA-Z_\x80-\xff][a-zA-Z0-9_\x80-\xff]*::'), TokLabel),
 ])
 _TOKEN_MATCHERS.extend([
-    (re.compile(br'\b'+keyword+br'\b'), TokKeyword)
+    (re.compile(br'\b'+keyword+br'(?![a-zA-Z0-9_\x80-\xff])'), TokKeyword)
     for keyword in LUA_KEYWORDS])
 # REMINDER: token patterns are ordered! The lexer stops at the first matching
 # pattern. This is especially tricky for the symbols because you have to make
